@@ -70,7 +70,7 @@ VE = 'utl::vector == std::vector; copies independent, self-assignment harmless, 
 HEAP = dict(extra=['--memory-leak-check'], gi_extra=['--no-malloc-may-fail'], timeout=900)
 VO = 'utl::vector: every operation preserves the representation invariant and transforms the element sequence like std::vector'
 HEAPOP = dict(gi_extra=['--no-malloc-may-fail'], timeout=900)
-HEAPL = dict(gi_extra=['--no-malloc-may-fail'], timeout=2400)   # three vector constructions with the value-initialising resize loop: 5-14 min on a loaded machine
+HEAPL = dict(gi_extra=['--no-malloc-may-fail'], timeout=2400, tier='thorough')   # three vector constructions with the value-initialising resize loop: 5-14 min on a loaded machine
 UNITS = [
     U('sv.default', SV), U('sv.sized', SV), U('sv.variadic', SV), U('sv.copy', SV), U('sv.assign', SV), U('sv.self_assign', SV),
     U('sv.resize', SV), U('sv.resize_fill', SV, unwind=10), U('sv.push_back', SV), U('sv.write', SV), U('sv.write_at', SV),
@@ -84,7 +84,7 @@ UNITS = [
     U('ei.assign_left', EI), U('ei.assign_right', EI), U('ei.probe', EI), U('ei.probe_free', EI),
     U('vec.sized', VE, **HEAP), U('vec.sized_init', VE, **HEAP), U('vec.push5', VE, **HEAP), U('vec.resize', VE, **HEAP),
     U('vec.resize_fill', VE, **HEAP), U('vec.shrink_grow', VE, **HEAP), U('vec.resize_push', VE, **HEAP),
-    U('vec.zero_push', VE, **HEAP), U('vec.push_alias', VE, **HEAP), U('vec.variadic', VE, **HEAP),
+    U('vec.zero_push', VE, **HEAP), U('vec.push_alias', VE, **dict(HEAP, timeout=1500)), U('vec.variadic', VE, **HEAP),
     U('vec.copy', VE, **HEAP), U('vec.assign', VE, **HEAP), U('vec.self_assign', VE, **HEAP),
     # per-operation contracts over the representation invariant (induction over histories); heap shape via is_fresh / was_freed
     Unit('vecop.resize', 'c19', 'nmtools::utl::vector::resize', clause=VO, **HEAPOP),
